@@ -37,7 +37,7 @@ var decoders = []decoder{
 		avail: func(a api) bool { return a.rf != nil },
 		run:   func(a api, d []byte) (int64, error) { return a.rf.ReadFrom(newChunkReader(d, chunking{zeroAt: -1})) }},
 	{name: "json.Unmarshal", method: "UnmarshalJSON", json: true,
-		avail: func(a api) bool { return a.ju != nil || a.jm != nil },
+		avail: func(a api) bool { return (a.ju != nil || a.jm != nil) && jsonDeclared(a.ptr) },
 		run:   func(a api, d []byte) (int64, error) { return 0, json.Unmarshal(d, a.ptr) }},
 }
 
@@ -99,7 +99,7 @@ func original(seed uint64, e *entry, vi int) *cached {
 	obj := build(seed, e, vi)
 	c := &cached{obj: obj, a: apiOf(obj)}
 	c.hasBin = c.a.bm != nil || c.a.wt != nil
-	c.hasJSON = c.a.ju != nil || c.a.jm != nil
+	c.hasJSON = (c.a.ju != nil || c.a.jm != nil) && jsonDeclared(obj)
 	if c.hasBin {
 		c.bin, c.binOut, c.binOK = encodeBinary(c.a)
 		c.bin = append([]byte(nil), c.bin...)
